@@ -86,6 +86,20 @@ func (p Path) has(kind byte) bool {
 // iterates: some fragment visits the members of a container (so that Go map order can show).
 func (p Path) iterates() bool { return p.has('w') || p.has('d') || p.has('f') }
 
+// hasIntUnion: some union fragment has an index member.
+func (p Path) hasIntUnion() bool {
+	for _, f := range p {
+		if f.Kind == 'u' {
+			for _, m := range f.Mem {
+				if _, ok := m.(int64); ok {
+					return true
+				}
+			}
+		}
+	}
+	return false
+}
+
 // hasZeroStep: some slice fragment has an explicit step of 0.
 func (p Path) hasZeroStep() bool {
 	for _, f := range p {
